@@ -183,6 +183,12 @@ class Gen:
     def plausible(self, cmd, server=False):
         r = self.rng
         n, c, t = self.nick(), self.chan(), r.choice(TEXTS)
+        if cmd not in ("NICK", "USER", "PASS", "SERVER", "OPER") and r.random() < 0.06:
+            # a comma-separated list where a single nickname is expected (clients send KICK/PRIVMSG/INVITE that way);
+            # the sender's own nick first is the interesting order
+            own = (self.sessions.get(getattr(self, "cur_sid", None)) or {}).get("nick")
+            n = r.choice([n + "," + self.nick(), (own or self.nick()) + "," + n])
+            self.count("nick_list")
         if cmd == "NICK":
             if server:
                 return "NICK %s 1 1 services localhost.net services.localhost.net 0 :Services" % r.choice(SVCNICKS + [n])
@@ -349,6 +355,60 @@ class Gen:
         self.count("half_registered")
         return True
 
+    def many_channels(self):
+        """one user on so many long-named channels that lists of them (WHOIS, the netburst, QUIT fan-out) exceed one
+        line: iteration-order and line-length behaviour that short histories never reach"""
+        r = self.rng
+        if getattr(self, "did_many", False):
+            return False
+        regs = [k for k, v in self.sessions.items() if v.get("registered") and not v.get("server") and v.get("nick")]
+        if not regs:
+            return False
+        self.did_many = True
+        sid = r.choice(regs)
+        nick = self.sessions[sid]["nick"]
+        tag = "".join(r.choice("abcdefghijklmnopqrstuvwxyzABCDEF0123456789") for _ in range(6))
+        n = r.choice([17, 20, 26])
+        names = ["#%s%02d%s" % (tag, j, "y" * 22) for j in range(n)]
+        r.shuffle(names)
+        for j in range(0, n, 5):
+            self.line(sid, "JOIN " + ",".join(names[j:j + 5]))
+        other = r.choice(list(self.sessions))
+        for t in r.sample(["WHOIS " + nick, "WHOIS " + nick, "LIST", "NAMES " + names[0], "WHO " + names[1], "PRIVMSG %s :%s" % (nick, "x" * 40)], 3):
+            self.line(other, t)
+        self.line(sid, r.choice(["NICK many" + tag[:3], "AWAY :" + "z" * 300, "PART " + ",".join(names[:7])]))
+        if r.random() < 0.5:
+            self.line(other, "WHOIS " + nick)
+        self.ops.append("D")
+        self.count("many_channels")
+        return True
+
+    def mode_soup(self):
+        """drives a channel and a user through every mode letter the handlers accept (client MODE, services MODE,
+        SVSMODE) so that snapshots, WHOIS/LIST/WHO and later joins see states with each flag set"""
+        r = self.rng
+        regs = [k for k, v in self.sessions.items() if v.get("registered") and not v.get("server") and v.get("nick")]
+        if not regs:
+            return False
+        sid = r.choice(regs)
+        nick = self.sessions[sid]["nick"]
+        c = "#soup%d" % r.randrange(3)
+        self.line(sid, "JOIN " + c)
+        for m in r.sample(["+i", "+s", "+k " + r.choice(KEYS), "+x", "-t", "-n", "+t", "+n", "-i", "+is", "+b *!*@soup*"], r.choice([2, 3, 5])):
+            self.line(sid, "MODE %s %s" % (c, m))
+        for m in r.sample(["+i", "+G", "-i", "+iG", "+o"], r.choice([1, 2])):
+            self.line(sid, "MODE %s %s" % (nick, m))
+        links = getattr(self, "links", None)
+        if links and self.svcnicks:
+            l = r.choice(links)
+            sv = r.choice(self.svcnicks)
+            for t in r.sample(["MODE %s +r" % c, "MODE %s +o %s" % (c, nick), "SVSMODE %s +r" % nick, "SVSMODE %s +d 12345" % nick, "MODE %s -r" % c,
+                               "TOPIC %s %s 0 :registered" % (c, sv), "SVSMODE %s -r" % nick], r.choice([1, 2, 3])):
+                self.line(l, ":%s %s" % (sv, t))
+        self.ops.append("D")
+        self.count("mode_soup")
+        return True
+
     def unpriv_attempt(self):
         """a plain member (not the channel operator) tries the privileged commands, in all the shapes that mix
         queries with changes"""
@@ -438,6 +498,13 @@ class Gen:
             self.count(cmd)
         if r.random() < 0.03:
             text = text.lower()
+        if r.random() < 0.04 and " " in text:
+            # an empty parameter (two spaces) in a random position of an otherwise plausible line
+            pos = [j for j, ch in enumerate(text) if ch == " " and " :" not in text[:j]]
+            if pos:
+                j = r.choice(pos[:3])
+                text = text[:j] + " " + text[j:]
+                self.count("empty_param")
         self.line(sid, text)
 
     # -- flows -------------------------------------------------------------------------------
@@ -518,6 +585,10 @@ class Gen:
             elif x < 0.50 and self.unpriv_attempt():
                 pass
             elif x < 0.515 and self.half_registered():
+                pass
+            elif x < 0.523 and self.many_channels():
+                pass
+            elif x < 0.545 and self.mode_soup():
                 pass
             else:
                 self.client_line(r.choice(live))
